@@ -207,6 +207,131 @@ theorem lLoop_inv {items : List LItem} : ∀ (rest : List LItem) (i : Nat) (st s
       rw [hr', hr1]
       by_cases hc : it.isConst = true <;> simp [constPositions, hc]
 
+/-! ### the closed form implies that the loop completes -/
+
+/-- the state after `i` items, described positionally -/
+structure LPos (items : List LItem) (i : Nat) (st : LState) : Prop where
+  defined : ∀ q, q ∈ st.defined ↔ q < i
+  pending : ∀ p, p ∈ st.pending → p < i
+  store : ∀ k, k ∈ st.store ↔ (k < i ∧ isConstAt items k = true)
+
+theorem optLe_isSomeIn {n : Nat} {l : List Nat} (h : ∀ q, q ≤ n → q ∈ l) {o : Option Nat}
+    (ho : optLe n o = true) : isSomeIn l o = true := by
+  cases o with
+  | none => simp [optLe] at ho
+  | some q => simp only [optLe, decide_eq_true_eq] at ho; simpa [isSomeIn] using h q ho
+
+theorem optLt_isSomeIn {n : Nat} {l : List Nat} (h : ∀ q, q < n → q ∈ l) {o : Option Nat}
+    (ho : optLt n o = true) : isSomeIn l o = true := by
+  cases o with
+  | none => simp [optLt] at ho
+  | some q => simp only [optLt, decide_eq_true_eq] at ho; simpa [isSomeIn] using h q ho
+
+theorem lStep_ready {items : List LItem} {st : LState} {i : Nat} {it : LItem}
+    (hit : items[i]? = some it) (pos : LPos items i st) (hr : itemReady items i it = true) :
+    ∃ st', lStep items st i it = .ok st' ∧ LPos items (i + 1) st' := by
+  simp only [itemReady, Bool.and_eq_true, Bool.or_eq_true, Bool.not_eq_true', List.all_eq_true] at hr
+  obtain ⟨⟨hf, hc⟩, hk⟩ := hr
+  have hdef : lDefine st i it = .ok { st with defined := i :: st.defined, pending := i :: st.pending } := by
+    have h1 : it.funcs.all Option.isSome = true := List.all_eq_true.2 hf
+    have h2 : it.consts.all (isSomeIn st.store) = true := by
+      refine List.all_eq_true.2 fun c hcm => ?_
+      have := hc c hcm
+      cases c with
+      | none => simp at this
+      | some k =>
+        simp only [Bool.and_eq_true, decide_eq_true_eq] at this
+        simpa [isSomeIn] using (pos.store k).2 this
+    simp [lDefine, h1, h2]
+  have hconstAt : isConstAt items i = it.isConst := by simp [isConstAt, hit]
+  by_cases hcst : it.isConst = true
+  · -- a constant: finalize, fetch the drop function, run
+    rcases hk with hk | hk
+    · rw [hcst] at hk; cases hk
+    obtain ⟨hdrop, hall⟩ := hk
+    have hmemle : ∀ q, q ≤ i → q ∈ i :: st.defined := by
+      intro q hq
+      rcases Nat.lt_or_eq_of_le hq with h | h
+      · exact List.mem_cons_of_mem _ ((pos.defined q).2 h)
+      · simp [h]
+    have hfin : lFinalize items { st with defined := i :: st.defined, pending := i :: st.pending }
+        = .ok { st with defined := i :: st.defined, pending := [] } := by
+      have : (i :: st.pending).all (fun p => (lFuncs items p).all (isSomeIn (i :: st.defined))) = true := by
+        refine List.all_eq_true.2 fun p hp => List.all_eq_true.2 fun o ho => ?_
+        have hple : p ≤ i := by
+          simp only [List.mem_cons] at hp
+          rcases hp with rfl | hp
+          · exact Nat.le_refl _
+          · exact Nat.le_of_lt (pos.pending p hp)
+        have := hall p (by simp; omega)
+        exact optLe_isSomeIn hmemle (this o ho)
+      simp [lFinalize, this]
+    refine ⟨{ st with defined := i :: st.defined, pending := [], store := st.store ++ [i],
+                      runs := st.runs ++ [(i, i :: st.defined, st.store)] }, ?_, ?_, ?_, ?_⟩
+    · simp only [lStep, bind, Except.bind, hdef, hcst, if_true, hfin]
+      simp [optLe_isSomeIn hmemle hdrop]
+    · intro q
+      simp only [List.mem_cons, pos.defined q]
+      omega
+    · intro p hp; cases hp
+    · intro k
+      simp only [List.mem_append, List.mem_singleton, pos.store k]
+      constructor
+      · rintro (⟨h1, h2⟩ | rfl)
+        · exact ⟨by omega, h2⟩
+        · exact ⟨by omega, by rw [hconstAt, hcst]⟩
+      · rintro ⟨h1, h2⟩
+        rcases Nat.lt_or_eq_of_le (Nat.le_of_lt_succ h1) with h | h
+        · exact Or.inl ⟨h, h2⟩
+        · exact Or.inr h
+  · refine ⟨{ st with defined := i :: st.defined, pending := i :: st.pending }, ?_, ?_, ?_, ?_⟩
+    · simp [lStep, bind, Except.bind, hdef, hcst]
+    · intro q
+      simp only [List.mem_cons, pos.defined q]
+      omega
+    · intro p hp
+      simp only [List.mem_cons] at hp
+      rcases hp with rfl | hp
+      · omega
+      · have := pos.pending p hp; omega
+    · intro k
+      simp only [pos.store k]
+      constructor
+      · rintro ⟨h1, h2⟩; exact ⟨by omega, h2⟩
+      · rintro ⟨h1, h2⟩
+        rcases Nat.lt_or_eq_of_le (Nat.le_of_lt_succ h1) with h | h
+        · exact ⟨h, h2⟩
+        · subst h; rw [hconstAt] at h2; exact absurd h2 hcst
+
+theorem lLoop_ready {items : List LItem} : ∀ (rest : List LItem) (i : Nat) (st : LState),
+    items.drop i = rest → LPos items i st → itemsReady items i rest = true →
+    ∃ st', lLoop items i rest st = .ok st' ∧ LPos items (i + rest.length) st' := by
+  intro rest
+  induction rest with
+  | nil => intro i st _ pos _; exact ⟨st, rfl, by simpa using pos⟩
+  | cons it rest ih =>
+    intro i st hdrop pos hr
+    obtain ⟨hit, hdrop'⟩ := drop_cons_get items i it rest hdrop
+    simp only [itemsReady, Bool.and_eq_true] at hr
+    obtain ⟨st1, hs, pos1⟩ := lStep_ready hit pos hr.1
+    obtain ⟨st', hl, pos'⟩ := ih (i + 1) st1 hdrop' pos1 hr.2
+    refine ⟨st', by simp [lLoop, bind, Except.bind, hs, hl], ?_⟩
+    have : i + (it :: rest).length = i + 1 + rest.length := by simp; omega
+    rw [this]; exact pos'
+
+theorem cgLir_ok_of_ready' (items : List LItem) (h : lirReady items = true) : ∃ st, cgLir items = .ok st := by
+  simp only [lirReady, Bool.and_eq_true] at h
+  obtain ⟨st1, hl, pos⟩ := lLoop_ready (items := items) items 0 LState.new (by simp)
+    ⟨by simp [LState.new], by simp [LState.new], by simp [LState.new]⟩ h.1
+  simp only [Nat.zero_add] at pos
+  have hfin : lFinalize items st1 = .ok { st1 with pending := [] } := by
+    have : st1.pending.all (fun p => (lFuncs items p).all (isSomeIn st1.defined)) = true := by
+      refine List.all_eq_true.2 fun p hp => List.all_eq_true.2 fun o ho => ?_
+      have := List.all_eq_true.1 h.2 p (by simpa using pos.pending p hp)
+      exact optLt_isSomeIn (fun q hq => (pos.defined q).2 hq) (List.all_eq_true.1 this o ho)
+    simp [lFinalize, this]
+  exact ⟨{ st1 with pending := [] }, by simp [cgLir, bind, Except.bind, hl, hfin]⟩
+
 theorem LReach.closed {items : List LItem} {D : List Nat}
     (hD : ∀ p, p ∈ D → ∀ q, LEdge items p q → q ∈ D) {a b : Nat} (r : LReach items a b) (ha : a ∈ D) :
     b ∈ D := by
